@@ -132,11 +132,10 @@ class Daemon:
         self._mm[0:8] = struct.pack("<q", t)
 
     def advance_timers(self, ms, settle=0.25):
-        """daemons built with VTIMER_SRC/VTIMER_WRAPS and started with --group-update-time=0: every pending timer sees the
-        clock ms further on; the sleeping timer thread is poked by SIGHUP (gids_update queues a timer and signals it)"""
+        """daemons built with vtimer_src()/VTIMER_WRAPS: every pending timer sees the clock ms further on; the timer thread
+        waits in 50 ms slices (harness/vtimer.c), so due timers fire within the settle time"""
         self._toff += ms
         self._mm[8:16] = struct.pack("<q", self._toff)
-        self.p.send_signal(signal.SIGHUP)
         time.sleep(settle)
 
     def start(self, wait=10.0):
